@@ -85,7 +85,11 @@ impl GenCfg {
 }
 
 fn decoration(r: &mut Rng, out: &mut Vec<u8>) {
-    match r.below(4) {
+    match r.below(8) {
+        4 => out.extend_from_slice(b"<?xml-stylesheet type=\"text/xsl\" href=\"a.xsl\"?>"),
+        5 => out.extend_from_slice(b"<!-- a -- b -> c -->"),
+        6 => out.extend_from_slice(b"<!---->"),
+        7 => out.extend_from_slice(b"<?x?>"),
         0 => out.extend_from_slice(b"<!-- c -->"),
         1 => out.extend_from_slice(b"<?pi some data?>"),
         2 => out.extend_from_slice(b"<!--x--><!--y-->"),
@@ -131,7 +135,13 @@ fn element(r: &mut Rng, g: &GenCfg, name: &str, depth: usize, out: &mut Vec<u8>,
     r.shuffle(&mut attrs);
     for a in attrs {
         *n += 1;
-        out.extend_from_slice(format!(" {}=\"v{:03}\"", a, n).as_bytes());
+        // attribute values in every legal shape: other quotes, a `>` or a line break inside, surrounding blanks
+        match r.below(12) {
+            0 => out.extend_from_slice(format!(" {}='v{:03}'", a, n).as_bytes()),
+            1 => out.extend_from_slice(format!(" {}=\"v{:03} > x\"", a, n).as_bytes()),
+            2 => out.extend_from_slice(format!("\n  {} = \"v{:03}\"", a, n).as_bytes()),
+            _ => out.extend_from_slice(format!(" {}=\"v{:03}\"", a, n).as_bytes()),
+        }
     }
     let nk = if depth >= g.max_depth || *budget == 0 { 0 } else { r.below(g.max_kids + 1) };
     let want_text = r.chance(g.text_pct, 100);
